@@ -38,7 +38,8 @@ CHECKS = {
     "C10": dict(pkg="./sim/c10", race=True, quick=24_000, thorough=2_400_000),
     "C11": dict(pkg="./sim/c11", race=False, quick=200_000, thorough=20_000_000),
     "C15": dict(pkg="./sim/c15", race=False, quick=400_000, thorough=40_000_000),
-    "C17": dict(pkg="./sim/c17", race=True, quick=24_000, thorough=2_400_000),
+    "C17": dict(pkg="./sim/c17", race=True, quick=24_000, thorough=2_400_000,
+                autoyield=dict(call="simPoint(%q)", files=["syncutil/sema.go", "syncutil/onceconstructor.go"])),
     "C18": dict(pkg="./sim/c18", race=True, quick=16_000, thorough=1_600_000),
     "C19": dict(pkg="./sim/c19", race=True, quick=12_000, thorough=1_200_000),
     "C20": dict(pkg="./sim/c20", race=True, quick=10_000, thorough=1_000_000),
@@ -91,8 +92,23 @@ def build(check_id, cfg, repo, tmp):
                 sums.update(l for l in f.read().splitlines() if l.strip())
     with open(os.path.join(tmp, "go.sum"), "w") as f:
         f.write("\n".join(sorted(sums)) + "\n")
-    args += ["-modfile=" + modfile, cfg["pkg"]]
     t0 = time.time()
+    if cfg.get("autoyield"):
+        # Statement-level yields: instrumented copies of the listed files are
+        # compiled instead of the originals through a build overlay.
+        ay = cfg["autoyield"]
+        files = [os.path.join(repo, f) for f in ay["files"]]
+        p = subprocess.run(
+            [go_bin(), "run", "-modfile=" + modfile, "./tools/autoyield", "-out", tmp, "-call", ay["call"]] + files,
+            cwd=VERIF, env=go_env(), stdout=subprocess.PIPE, stderr=subprocess.PIPE, text=True)
+        if p.returncode != 0:
+            log("HARNESS-ERROR: autoyield failed:\n" + p.stderr[-3000:])
+            return None
+        overlay = os.path.join(tmp, "overlay.json")
+        with open(overlay, "w") as f:
+            f.write(p.stdout)
+        args.append("-overlay=" + overlay)
+    args += ["-modfile=" + modfile, cfg["pkg"]]
     p = subprocess.run(args, cwd=VERIF, env=go_env(), stdout=subprocess.PIPE, stderr=subprocess.STDOUT, text=True)
     if p.returncode != 0:
         log("HARNESS-ERROR: build failed (exit %d):\n%s" % (p.returncode, p.stdout[-4000:]))
@@ -167,6 +183,16 @@ def tail(path, n=6000):
 
 def golibs_frames(text):
     return sorted(set(re.findall(re.escape(GOLIBS) + r"/([\w/]+\.[\w.()*\[\]]+)\(", text)))
+
+
+def hang_site(text):
+    """golibs function of a goroutine that is blocked on a mutex in a hang dump."""
+    for block in text.split("\n\n"):
+        if "sync.(*Mutex).Lock" in block or "SemacquireMutex" in block or "sync.(*RWMutex)" in block:
+            s = crash_site(block)
+            if s:
+                return s
+    return crash_site(text)
 
 
 def crash_site(text):
@@ -353,7 +379,7 @@ def drive(args, check_id, cfg, tier, seed, repo, tmp, t_start):
             hang2 = tail(os.path.join(tmp, "crash%d.json.hang" % w), 200000)
             text = hang2 or err2
             klass = "hang" if (rc2 == 3 or hang2) else "crash"
-            site = crash_site(text)
+            site = hang_site(text) if klass == "hang" else crash_site(text)
             if not site:
                 harness_errors.append(
                     "worker %d: reproducible %s at seed=%d run=%d without golibs frames:\n%s"
